@@ -83,6 +83,9 @@ func (c *Config) YAML() string {
 		b.WriteString("inhibit_rules:\n")
 		for _, r := range c.Inhibit {
 			fmt.Fprintf(&b, "  - source_matchers: %s\n    target_matchers: %s\n", matcherList(r.Source), matcherList(r.Target))
+			if r.Name != "" {
+				fmt.Fprintf(&b, "    name: %s\n", r.Name)
+			}
 			if len(r.Equal) > 0 {
 				fmt.Fprintf(&b, "    equal: [%s]\n", strings.Join(r.Equal, ", "))
 			}
